@@ -173,6 +173,59 @@ def generate(rng, tier, seed):
                         c.pred("retail MAC = ISO 9797-1 algorithm 3 (message that looks padded)",
                                lambda rep, r=r, i=i: None if (r.ok and rep[i] == "ok\t" + enc_b(r.value)) else f"{r.value.hex() if r.ok else r.err} != {rep[i]}")
                         yield c
+    # chosen MAC values: the last message block is computed backwards (with the `cryptography` package) so that the MAC comes out
+    # all zero, all ones, equal to the first message block, or equal to the start of the key - a MAC like any other
+    from cryptography.hazmat.primitives.ciphers import Cipher as _C, algorithms as _A, modes as _M
+    import warnings as _w
+
+    def _ecb(key, aes):
+        with _w.catch_warnings():
+            _w.simplefilter("ignore")
+            a_ = _A.AES(key) if aes else _A.TripleDES(key if len(key) == 24 else (key + key[:8] if len(key) == 16 else key * 3))
+        enc = lambda b: (lambda e: e.update(b) + e.finalize())(_C(a_, _M.ECB()).encryptor())
+        dec = lambda b: (lambda d: d.update(b) + d.finalize())(_C(a_, _M.ECB()).decryptor())
+        return enc, dec
+
+    def _chain(enc, blocks, bs):
+        c_ = bytes(bs)
+        for b_ in blocks:
+            c_ = enc(bytes(x ^ y for x, y in zip(b_, c_)))
+        return c_
+    for aes, bs, ksizes in ((False, 8, (8, 16, 24)), (True, 16, (16, 24, 32))):
+        for ks in ksizes:
+            for nblk in (1, 2, 4):
+                key = rb(rng, ks)
+                enc, dec = _ecb(key, aes)
+                prefix = [rb(rng, bs) for _ in range(nblk - 1)]
+                for what in ("zero", "ones", "first-block", "key"):
+                    target = {"zero": bytes(bs), "ones": b"\xff" * bs, "first-block": (prefix[0] if prefix else rb(rng, bs)), "key": (key * 2)[:bs]}[what]
+                    last = bytes(x ^ y for x, y in zip(dec(target), _chain(enc, prefix, bs)))
+                    data = b"".join(prefix) + last
+                    c = Case(f"cbc_mac:{'aes' if aes else 'des'}:chosen-mac:{what}", {"key": ks, "blocks": nblk})
+                    r = c.call("mac.generate_cbc_mac", key, data, 1, None, A.AES if aes else A.DES)
+                    if what != "first-block" or prefix:
+                        if not r.ok or r.value != target:
+                            c.fail(f"a message whose MAC is {what} ({target.hex()}): {'raised ' + r.err if not r.ok else 'returned ' + r.value.hex()}")
+                    i = c.line(f"spec.mac1\ta:{'aes' if aes else 'des'}\t{enc_b(key)}\ti:1\t{enc_b(data)}\ti:{bs}")
+                    c.pred("CBC-MAC = ISO 9797-1 algorithm 1 (chosen MAC value)",
+                           lambda rep, r=r, i=i: None if (r.ok and rep[i] == "ok\t" + enc_b(r.value)) else f"{r.value.hex() if r.ok else r.err} != {rep[i]}")
+                    yield c
+    for nblk in (1, 3):
+        k1, k2 = rb(rng, 8), rb(rng, 8)
+        e1, d1 = _ecb(k1, False)
+        e2, d2 = _ecb(k2, False)
+        prefix = [rb(rng, 8) for _ in range(nblk - 1)]
+        for what, target in (("zero", bytes(8)), ("ones", b"\xff" * 8), ("key", k1)):
+            last = bytes(x ^ y for x, y in zip(d1(e2(d1(target))), _chain(e1, prefix, 8)))
+            data = b"".join(prefix) + last
+            c = Case(f"retail_mac:chosen-mac:{what}", {"blocks": nblk})
+            r = c.call("mac.generate_retail_mac", k1, k2, data, 1, None)
+            if not r.ok or r.value != target:
+                c.fail(f"a message whose retail MAC is {what}: {'raised ' + r.err if not r.ok else 'returned ' + r.value.hex()}")
+            i = c.line(f"spec.mac3\t{enc_b(k1)}\t{enc_b(k2)}\ti:1\t{enc_b(data)}\ti:8")
+            c.pred("retail MAC = ISO 9797-1 algorithm 3 (chosen MAC value)",
+                   lambda rep, r=r, i=i: None if (r.ok and rep[i] == "ok\t" + enc_b(r.value)) else f"{r.value.hex() if r.ok else r.err} != {rep[i]}")
+            yield c
     # special key values (constant bytes, DES weak / semi-weak components in every position, text-like keys): "for every key"
     lim = 14 if tier == "quick" else None
     for ks in (8, 16, 24):
